@@ -194,13 +194,14 @@ func (d *StrListDecoder) Read(r io.Reader) (int64, []string, error) {
 		d.ensureBufSize(int(l))
 		n, err := io.ReadFull(r, d.buf[:l])
 		d.pos += n
-		sl = append(sl, string(d.buf[:n]))
-		if errors.Is(err, io.EOF) && i == count-1 {
-			break
+		if errors.Is(err, io.EOF) {
+			// the length says l > 0 bytes follow: nothing there is a truncated list, not its end
+			err = io.ErrUnexpectedEOF
 		}
 		if err != nil {
 			return 0, nil, err
 		}
+		sl = append(sl, string(d.buf[:n]))
 	}
 	return int64(d.pos), sl, nil
 }
@@ -231,8 +232,9 @@ func (d *StrListDecoder) ReadBytes(r io.Reader) (n int, b []byte, err error) {
 		d.ensureBufSize(n + int(l))
 		m, err = io.ReadFull(r, d.buf[n:n+int(l)])
 		n += m
-		if errors.Is(err, io.EOF) && i == count-1 {
-			break
+		if errors.Is(err, io.EOF) {
+			// the length says l > 0 bytes follow: nothing there is a truncated list, not its end
+			err = io.ErrUnexpectedEOF
 		}
 		if err != nil {
 			err = fmt.Errorf("error reading string (%d bytes): %w", l, err)
